@@ -25,7 +25,7 @@ CLAIM = {
             "parent: from_inner_class(map(parent, get_class_name(parent, ns)?), mapped) else mapped; get_class_name turns a missing "
             "class or name into Err. split_inner_class_parent_and_name cuts at the last `$`, returns (parent, inner) in this order, "
             "guarded by exactly: parent non-empty, inner non-empty, parent does not end with `/`, inner contains no `/`; "
-            "get_inner_class_name / _parent project component 1 / 0; from_inner_class = parent + `$` + inner.",
+            "get_inner_class_name / _parent project component 1 / 0; from_inner_class = parent + `$` + inner. Contraction rewrites the slot unconditionally (independent of the source name).",
     "note": "Known finding (1): contract_inner_class_name does not refuse the first namespace "
             "(fixes/proposed/C11-contract-first-namespace.md). Not decided: the inverse law contract(extend(x)) = x, termination of the recursion on cyclic data, behaviour when the "
             "mapped name already contains `$`. Trusted: rustc HIR/typeck, ADT tables; spec/quill_inner_class_names.json "
